@@ -483,6 +483,17 @@ theorem roundtrip_fixed (row : List Value) (hwf : RowWF row) (hst : ∀ v ∈ ro
     | _ => simp [norm]
   rw [this]
 
+/-- the spill encoding loses nothing: two well-formed rows (no non-canonical NaNs) that the fixed
+serialiser maps to the same bytes are the same row, types and bits included -/
+theorem serialize_injective_fixed (r1 r2 : List Value) (h1 : RowWF r1) (h2 : RowWF r2)
+    (s1 : ∀ v ∈ r1, StableFix v) (s2 : ∀ v ∈ r2, StableFix v)
+    (h : serializeRow .fix r1 = serializeRow .fix r2) : r1 = r2 := by
+  have e1 := roundtrip_fixed r1 h1 s1 [] []
+  have e2 := roundtrip_fixed r2 h2 s2 [] []
+  rw [h, e2] at e1
+  injection e1 with e _
+  exact e.symm
+
 /-- the column count is written as `row.len() as u16`: a row of 65536 columns is read back as the
 empty row (2 bytes consumed, 65536 left unread). -/
 theorem colcount_wrap_counterexample (var : Variant) :
